@@ -418,11 +418,12 @@ impl Driver {
 
     /// Execute one statement under the given scheduler.
     pub fn run(&mut self, sess: usize, sql: &str, sched: &mut dyn Sched) -> RunResult {
-        if let Some(kind) = crate::guard::skipped(sql) {
+        let ctx = self.fs.state_hash();
+        if let Some(kind) = crate::guard::skipped(sql, ctx) {
             let outcome = if kind == "abort" { Outcome::Abort { detail: "the statement killed the process in an earlier attempt of this run (recorded by the supervisor)".into() } } else { Outcome::Hang { detail: "wall limit exceeded inside a single poll in an earlier attempt of this run (recorded by the watchdog)".into() } };
             return RunResult { outcome, stats: RunStats::default() };
         }
-        crate::guard::enter(sql);
+        crate::guard::enter(sql, ctx);
         let r = self.run_inner(sess, sql, sched);
         crate::guard::leave();
         r
